@@ -392,6 +392,10 @@ class FKF:
         _assert_numerical_iterable(q, 'Quaternion')
         _assert_numerical_iterable(acc, 'Tri-axial accelerometer sample')
         _assert_numerical_iterable(mag, 'Tri-axial magnetometer sample')
+        if not np.linalg.norm(acc) > 0:
+            raise ValueError("Accelerometer sample must be non-zero.")
+        if not np.linalg.norm(mag) > 0:
+            raise ValueError("Magnetometer sample must be non-zero.")
         ax, ay, az = acc / np.linalg.norm(acc)
         mx, my, mz = mag / np.linalg.norm(mag)
         qw, qx, qy, qz = q
